@@ -3,10 +3,9 @@
 //! `PANIC <message>` (exit code 3). With `calc` the mania difficulty is computed too.
 use rosu_pp::{model::mode::GameMode, Beatmap, Difficulty, GameMods};
 
-// the hooked crate reports to `rosu_pp_verif_view_sink` (harness/src/viewsink.rs): keep the harness
-// library linked so the symbol is defined
-#[allow(dead_code)]
-const VIEW_SINK: fn(u8, u8, usize, &[bool]) = rosu_verif::viewsink::rosu_pp_verif_view_sink;
+// the hooked crate reports to `rosu_pp_verif_view_sink` (harness/src/viewsink.rs): keep the harness lib linked
+#[used]
+static VIEW_SINK: fn(u8, u8, usize, &[bool]) = rosu_verif::viewsink::rosu_pp_verif_view_sink;
 
 fn main() {
     let a: Vec<String> = std::env::args().collect();
